@@ -25,10 +25,11 @@ var incidentKinds = []string{
 	"reader-fails-while-writer-blocked",     // read error with a writer stuck inside Write
 	"read-eof", "read-reset", "read-expiry-mid-packet", "protocol-violation",
 	"ack-write-fails", "dial-fails-n-times", "handshake-fails", "resend-fails", "refused",
-	"expiry-while-skipping-big-duplicate", // the broker stalls inside the payload of a retransmission that gets skipped
-	"expiry-while-skipping-unread-big",    // the same inside a big message the application did not read
-	"violation-inside-big-publish",        // a PUBLISH beyond the read buffer that is itself a protocol violation
-	"publish-during-resend",               // persisted publishes of both levels while the resend of a reconnect is under way
+	"expiry-while-skipping-big-duplicate",             // the broker stalls inside the payload of a retransmission that gets skipped
+	"expiry-while-skipping-unread-big",                // the same inside a big message the application did not read
+	"violation-inside-big-publish",                    // a PUBLISH beyond the read buffer that is itself a protocol violation
+	"publish-during-resend",                           // persisted publishes of both levels while the resend of a reconnect is under way
+	"writer-fails-while-reader-owes-duplicate-pubrec", // the read routine meets a retransmitted exactly-once PUBLISH with the connection set pending by a failed writer
 }
 
 const c10Min, c10Max = 2 * time.Millisecond, 16 * time.Millisecond
@@ -289,6 +290,32 @@ func runIncidents(c *run.Ctx, kinds []string) {
 			w.Open("reader")
 			w.WaitUntil(sim.StepTimeout, func() bool { return w.Gate("reader").Waiting == 0 })
 			w.ResetGate("reader")
+		case "writer-fails-while-reader-owes-duplicate-pubrec":
+			// an exactly-once message gets received in full (marker stored); the read
+			// routine parks before its next flush with a retransmission of that
+			// message already on the way; a writer fails meanwhile
+			id := uint16(0x0300 + n)
+			msg := wire.Publish("in/dup/"+tag, []byte("m"), 2, id, false, false)
+			reads0 := d.ReadCount()
+			conn.Send(msg, "exactly-once PUBLISH")
+			if !w.WaitUntil(sim.StepTimeout, func() bool { return d.ReadCount() > reads0 && w.ReaderQuietLocked() }) {
+				wedge("exactly-once message was not received")
+				return
+			}
+			set(func() { parkAt = "read.flush" })
+			// a first packet brings the read routine round to the parking point, the
+			// retransmission waits right behind it
+			conn.Send(append(wire.Publish("in/noise/"+tag, []byte("n"), 0, 0, false, false), wire.Publish("in/dup/"+tag, []byte("m"), 2, id, true, false)...), "PUBLISH, then the retransmission")
+			if !w.WaitGateWaiting("reader", 1, sim.StepTimeout) {
+				wedge("read routine never reached the parking point")
+				return
+			}
+			set(func() { failWriter = true })
+			pending = append(pending, request())
+			w.WaitUntil(sim.StepTimeout, func() bool { return conn.Closed() })
+			w.Open("reader")
+			w.WaitUntil(sim.StepTimeout, func() bool { return w.Gate("reader").Waiting == 0 })
+			w.ResetGate("reader")
 		case "writer-fails-while-reader-in-read", "writer-fails-after-reader-flushed":
 			if kind == "writer-fails-after-reader-flushed" {
 				w.Broker.Publish("in/"+tag, []byte("m"), 1, false)
@@ -541,7 +568,7 @@ func init() {
 			return 2100
 		},
 		ChunkSize:   25,
-		Rule:        "each case strings 1-5 incidents on one client with an always-calling read loop that waits on ReadBackoff (ReconnectWaitMin 2 ms, Max 16 ms). Incident kinds place a failure relative to the read routine with hook parking and connection gates: another goroutine's request write (Publish, Subscribe, Ping) fails while the read routine is parked right before its acknowledgement flush, parked between saving and writing a PUBREL, blocked in Read, or after it flushed; the read routine meets a protocol violation while a writer is stuck inside Write holding the connection; EOF, reset, expiry inside a packet, a protocol violation; the broker falls silent inside the payload of a message beyond the read buffer that is being skipped (a retransmitted exactly-once duplicate, or one the application chose not to read); the acknowledgement's own write fails; 1-5 consecutive dial failures (plain errors, errors that wrap context.Canceled or DeadlineExceeded, net.ErrClosed, unexpected EOF: none means the Client was closed); a PUBLISH beyond the read buffer that is itself a protocol violation; 1-3 handshakes cut; refusals; resend failures with transfers pending; persisted publishes of both levels issued while the resend of a reconnect is stalled inside a write. Before every second incident a Subscribe is brought to the point where it awaits its (withheld) answer on the connection. Oracle after each incident: the failed connection gets closed, the Dialer is invoked again, every request pending on that connection returns, Online is released and a Ping succeeds; 'does not happen' is decided structurally (no event and identical goroutine stacks for the stability window) with the dump as witness. ReadBackoff: non-nil for every error but ErrClosed, idle duration (seen through verifNote) inside [Min, Max], equal to Max after refusals and to the documented doubling otherwise, channel never closed earlier than that duration. Non-trivial: every incident; distinct by incident kind sequence.",
+		Rule:        "each case strings 1-5 incidents on one client with an always-calling read loop that waits on ReadBackoff (ReconnectWaitMin 2 ms, Max 16 ms). Incident kinds place a failure relative to the read routine with hook parking and connection gates: another goroutine's request write (Publish, Subscribe, Ping) fails while the read routine is parked right before its acknowledgement flush, parked between saving and writing a PUBREL, blocked in Read, or after it flushed; the read routine meets a protocol violation while a writer is stuck inside Write holding the connection; EOF, reset, expiry inside a packet, a protocol violation; the broker falls silent inside the payload of a message beyond the read buffer that is being skipped (a retransmitted exactly-once duplicate, or one the application chose not to read); the acknowledgement's own write fails; 1-5 consecutive dial failures (plain errors, errors that wrap context.Canceled or DeadlineExceeded, net.ErrClosed, unexpected EOF: none means the Client was closed); a PUBLISH beyond the read buffer that is itself a protocol violation; 1-3 handshakes cut; refusals; resend failures with transfers pending; persisted publishes of both levels issued while the resend of a reconnect is stalled inside a write; a retransmitted exactly-once PUBLISH (its PUBREC is owed at once) met by the read routine after a writer's failure set the connection pending. Before every second incident a Subscribe is brought to the point where it awaits its (withheld) answer on the connection. Oracle after each incident: the failed connection gets closed, the Dialer is invoked again, every request pending on that connection returns, Online is released and a Ping succeeds; 'does not happen' is decided structurally (no event and identical goroutine stacks for the stability window) with the dump as witness. ReadBackoff: non-nil for every error but ErrClosed, idle duration (seen through verifNote) inside [Min, Max], equal to Max after refusals and to the documented doubling otherwise, channel never closed earlier than that duration. Non-trivial: every incident; distinct by incident kind sequence.",
 		Assumptions: []string{"the stability window is 1.5 s (75 periods of the client's only periodic timer) after an 8 s watchdog; a watchdog expiry with events still flowing is inconclusive", "real time is used to hold nothing; the early-close check of ReadBackoff is the one sound direction of a wall-clock comparison"},
 		Run: func(c *run.Ctx) {
 			n := 1 + c.Rng.Intn(5)
